@@ -28,6 +28,13 @@ CHECKS["C17"] = dict(level="model_checking", design="DESIGN.md §6 C17, Appendix
     note="Location accuracy is only claimed (and checked) for properties, patternProperties, additionalProperties, tuple items and additionalItems; under single-schema items index segments may be missing. "
          "Trusted: harness facts, percent-encoding of names.")
 
+CHECKS["C20"] = dict(level="model_checking", design="DESIGN.md §6 C20, §3.1 Result",
+    technique="explicit TLA+ state machine Result.tla: exhaustive TLC check of its invariants/action properties, TLC-generated behaviours replayed into validate.Result, recorded operation traces validated by Trace_Result.tla",
+    text="Result.tla models the accumulator with one action per public method. TLC checks NoDupMsgs, ValidIffNoErrors, prefix preservation, additivity, frame conditions and first-occurrence order "
+         "on the complete bounded operation graph; the same operators generate behaviours that are stepped through the real objects (state compared after every step, redeemed results poisoned so "
+         "aliasing shows) and validate operation traces recorded from the code.",
+    note="Bounded: 2-3 results, 2-3 messages in the exhaustive/generated part; 5 results, 6 messages in recorded traces. Trusted: projection function, TLC.")
+
 NOT_YET = {}
 
 
